@@ -19,6 +19,10 @@ func validateIPv6Literal(host []byte) error {
 	if end < 0 || end == 1 {
 		return errInvalidIPv6Host
 	}
+	// The literal ends at the first ']'; only a port may follow it.
+	if bytes.IndexByte(host[end+1:], ']') >= 0 {
+		return errInvalidIPv6Host
+	}
 	addr := host[1:end]
 
 	// Optional zone.
